@@ -286,6 +286,9 @@ func Main(ctx context.Context, osenv *rsyncos.Env, args []string, cfg *rsyncdcon
 				// rsyncd.NewServer call above. Do not add more rulesets to stay
 				// under the limit of policy layers per process.
 				DontRestrict: true,
+				// The command line comes from the SSH peer: --help or
+				// --version must end the session, not the daemon.
+				NoExit: true,
 			}
 			_, err := Main(ctx, osenv, args, cfg)
 			return err
@@ -303,6 +306,9 @@ func Main(ctx context.Context, osenv *rsyncos.Env, args []string, cfg *rsyncdcon
 				// rsyncd.NewServer call above. Do not add more rulesets to stay
 				// under the limit of policy layers per process.
 				DontRestrict: true,
+				// The command line comes from the SSH peer: --help or
+				// --version must end the session, not the daemon.
+				NoExit: true,
 			}
 			_, err := Main(ctx, osenv, args, cfg)
 			return err
